@@ -32,5 +32,11 @@ void inst(){
   all_io(a, bmp_tag()); all_io(a, pnm_tag()); all_io(a, targa_tag()); all_io(a, png_tag()); all_io(a, jpeg_tag()); all_io(a, tiff_tag());
   all_io(g, pnm_tag()); all_io(g, png_tag());
   rgb16_image_t p16; std::string name("f"); read_image(name, p16, tiff_tag());   // palette tiff files are read into rgb16
+  // converting reads into destinations whose channel is not a byte (the row buffers stay in the file's type)
+  gray32f_image_t gf; gray16_image_t g16; gray8s_image_t g8s;
+  read_and_convert_image(name, gf, pnm_tag()); read_and_convert_image(name, g16, pnm_tag()); read_and_convert_image(name, g8s, pnm_tag());
+  read_and_convert_image(name, gf, bmp_tag()); read_and_convert_image(name, g16, targa_tag());
+  gray1_image_t g1; read_and_convert_image(name, g1, pnm_tag());
+  read_and_convert_image(name, p16, tiff_tag());       // converting read into the palette's own type
   scan(bmp_tag()); scan(pnm_tag()); scan(targa_tag()); scan(png_tag()); scan(jpeg_tag()); scan(tiff_tag());
 }
